@@ -267,6 +267,18 @@ def _extra_clauses(case, m, pop, n_ids, theta, x, cov, special, want, kw):
                 sc = m.compute_sensitivities(theta.copy(), x2.copy(), **kw)[0]
                 case.close(sc, -np.inf, what='score of compute_sensitivities with the value of individual 0 in point-mass '
                                              'dimension %d off by %s' % (d, label))
+    # ---- other array forms -----------------------------------------------------------------
+    if np.isfinite(want) and s['layout'] == 'flat':
+        with case.clause('array_forms'):
+            from vf.core import array_forms
+            for (lt, a_th) in array_forms(theta):
+                for (lx, a_x) in array_forms(x):
+                    v = m.compute_log_likelihood(a_th, a_x, **kw)
+                    case.close(v, want, rtol=1e-8, what='log-likelihood for parameters given as %s and values as %s' % (lt, lx))
+                    sc_a = m.compute_sensitivities(a_th, a_x, reduce=True, **kw)
+                    sc_b = m.compute_sensitivities(theta.copy(), x.copy(), reduce=True, **kw)
+                    case.close(np.asarray(sc_a[1], dtype=float), np.asarray(sc_b[1], dtype=float), rtol=1e-12,
+                               what='reduced sensitivities for parameters given as %s and values as %s' % (lt, lx))
     # ---- whole numbers typed as integers ---------------------------------------------------
     if cov is None and s['layout'] == 'flat':
         with case.clause('integer_inputs'):
